@@ -869,7 +869,8 @@ func (g *gen) forPiece(depth int) {
 		iter, ek = "["+g.expr(kInt, 1, "array-element")+", "+g.expr(kInt, 1, "array-element")+"]", kInt
 	case 3:
 		g.feat("for_iterator")
-		iter, ek = "range("+g.expr(kInt, 0, "go-helper-arg")+", "+fmt.Sprint(g.intn("hi", 0, 14))+")", kInt
+		// bounds are small literals (possibly behind a probe): a data-dependent bound could make the loop astronomically long
+		iter, ek = "range("+g.maybeProbe(fmt.Sprint(g.intn("lo", 0, 3)), kInt, "go-helper-arg", false)+", "+fmt.Sprint(g.intn("hi", 0, 14))+")", kInt
 	case 4:
 		g.feat("for_iterator")
 		iter, ek = "until("+fmt.Sprint(g.intn("hi", 0, 3))+")", kInt
